@@ -27,6 +27,7 @@ Definition op_uses (c : cfg) (present : K -> bool) (o : op1) : list K :=
   | SetDefault k _ => lookup_uses c present k true
   | Update e f => map fst (e ++ f)
   | IOr e => map fst e
+  | UpdateSelf f => map fst f
   | _ => []
   end.
 
@@ -261,6 +262,9 @@ Proof.
     + (* IOr *) now apply latest_sets.
     + now rewrite app_nil_r.
     + now rewrite app_nil_r.
+    + now rewrite app_nil_r.
+    + now rewrite app_nil_r.
+    + (* UpdateSelf *) now apply latest_sets.
     + now rewrite app_nil_r.
     + now rewrite app_nil_r.
 Qed.
